@@ -139,9 +139,17 @@ fn gen_c07_case(rng: &mut Rng) -> C07Case {
         allow_glueless: rng.chance(3, 4),
         cname_chains: rng.below(4),
     };
-    let u = universe::generate(rng, &cfg);
+    let mut u = universe::generate(rng, &cfg);
     let n = rng.range(1, 6);
-    let questions = universe::questions(rng, &u, n);
+    let mut questions = universe::questions(rng, &u, n);
+    // one case in twelve: a ladder of 17..22 alias links, each in a zone whose only name server has to be looked up
+    // through upstream first (no glue) - a long run of sibling sub-resolutions inside one request
+    if matches!(protocol, ProtocolMode::OnlyV4 | ProtocolMode::PreferV4) && rng.chance(1, 12) {
+        let k = rng.range(17, 22);
+        let qname = universe::add_ladder(&mut u, k);
+        let at = rng.below(questions.len() + 1);
+        questions.insert(at, question(&qname, qt(RecordType::A)));
+    }
     C07Case {
         u: Arc::new(u),
         mode: Mode::recursive(protocol, *rng.pick(&[53u16, 53, 5353, 1, 65535])),
@@ -198,6 +206,13 @@ fn c07_case(rng: &mut Rng, sim: &mut Sim, sh: &mut Shard, tr: &mut Tracer, coord
                    "expected": {"chain": rrs_json(&want.chain), "finals": rrs_json(&want.finals), "soa": want.soa.as_ref().map(show_rr)}})
         };
         sh.count("exchanges", out.log.len() as u64);
+        if show_name(&q.name) == "a.lad0." {
+            sh.count("ladder:questions", 1);
+            sh.count_max("ladder:max-exchanges-in-one-resolution", out.log.len() as u64);
+            if matches!(&out.result, Ok(Ok(_))) {
+                sh.count("ladder:answered", 1);
+            }
+        }
         if out.log.len() >= 2 {
             let mut h = fnv(show_name(&q.name).as_bytes());
             for e in &out.log {
